@@ -61,6 +61,29 @@ Definition argvchild_exit (t : lookup_tbl) (penv emap : list (string * string)) 
 Fixpoint rep_str (s : string) (n : nat) : string :=
   match n with O => EmptyString | S n' => String.append s (rep_str s n') end.
 
+(* ---- very long argument lists: the case file names the cells by a rule and compares a digest ---- *)
+Fixpoint dec_go (fuel n : nat) (acc : string) : string :=
+  match fuel with
+  | O => acc
+  | S f => let d := String (ascii_of_nat (48 + Nat.modulo n 10)) acc in
+           if Nat.eqb (Nat.div n 10) 0 then d else dec_go f (Nat.div n 10) d
+  end.
+Definition dec (n : nat) : string := dec_go (S n) n EmptyString.
+(* prefix0, prefix1, ..., prefix(n-1) *)
+Definition big_cells (prefix : string) (n : nat) : list string := map (fun i => String.append prefix (dec i)) (seq 0 n).
+
+Definition dig_mod : N := 4294967296%N.
+Fixpoint dig_str (h : N) (s : string) : N :=
+  match s with
+  | EmptyString => h
+  | String c r => dig_str (N.modulo (h * 31 + N.of_nat (nat_of_ascii c)) dig_mod) r
+  end.
+Fixpoint dig_list (h : N) (l : list string) : N :=
+  match l with
+  | [] => h
+  | x :: r => dig_list (N.modulo (dig_str h x * 31 + 1) dig_mod) r
+  end.
+
 Definition S_ (id off len cap : nat) : slice := {| s_id := id; s_off := off; s_len := len; s_cap := cap |}.
 Definition C_ (k : kind) (cmd : string) (baked : slice) : closure := {| cl_kind := k; cl_cmd := cmd; cl_baked := baked |}.
 
@@ -70,6 +93,8 @@ Record iobs := {
   i_out : option string;                (* text handed back (Output*, OutCmd closures, Exec's stdout writer) *)
   i_stdout : string;                    (* what reached the process's os.Stdout during the call *)
   i_status : nat;                       (* sh.ExitStatus of the returned error, 0 = nil *)
+  i_digest : option (nat * N * option N);  (* very long calls: number of children, digest of their argv lists, digest of the text
+                                           (then i_argv / i_out are left empty in the case file) *)
   i_snap : heap;                        (* every caller-visible array, in full, right after the operation *)
   i_emap : list (string * string)       (* the env map handed in, as it is after the operation (sorted by key) *)
 }.
@@ -99,12 +124,27 @@ Definition obs_agree (t : lookup_tbl) (penv : list (string * string)) (o : op) (
   match fst m with
   | OSet | OMk => match i_argv i with [] => true | _ => false end
   | OCall argv out so st =>
+      match i_digest i with
+      | Some (cnt, dargv, dout) =>
+          let started := match startable t penv (match o with CallDirect f emap _ _ => if uses_map f then emap else [] | _ => [] end) argv with
+                         | Some _ => true | None => false end in
+          Nat.eqb cnt (if started then 1 else 0) && N.eqb dargv (if started then dig_list 0 argv else 0%N) &&
+          option_eqb N.eqb (option_map (dig_str 0) out) dout && String.eqb so (i_stdout i) && Nat.eqb st (i_status i)
+      | None =>
       list_eqb (list_eqb String.eqb)
                (match startable t penv (match o with CallDirect f emap _ _ => if uses_map f then emap else [] | _ => [] end) argv with
                 | Some _ => [argv] | None => [] end) (i_argv i) &&
       option_eqb String.eqb out (i_out i) &&
       String.eqb so (i_stdout i) && Nat.eqb st (i_status i)
+      end
   | OBad => false
+  end.
+
+(* the payload of a mismatch stays small: of a very long call only the first arguments are shown *)
+Definition trim_payload (m : obs * heap) : obs * heap :=
+  match fst m with
+  | OCall argv out so st => if Nat.ltb 50 (length argv) then (OCall (firstn 5 argv) None so st, []) else m
+  | _ => m
   end.
 
 Fixpoint first_diff (t : lookup_tbl) (penv : list (string * string)) (n : nat) (ops : list op) (ms : list (obs * heap)) (is_ : list iobs)
@@ -114,7 +154,7 @@ Fixpoint first_diff (t : lookup_tbl) (penv : list (string * string)) (n : nat) (
   | o :: ops', m :: ms', i :: is' =>
       if obs_agree t penv o m i
       then first_diff t (match o with SetEnv k v => (k, v) :: penv | _ => penv end) (S n) ops' ms' is'
-      else Some (n, Some m)
+      else Some (n, Some (trim_payload m))
   | _, _, _ => Some (n, None)
   end.
 
